@@ -192,7 +192,7 @@ def native_check(cex):
 def main(tier, seed, args):
     rep = Report(PID, tier, seed, 'proof')
     c = ctx('on')
-    rep.bounds = {'options': 'all i64 values of the six integer options, both values of the two flags', 'outside': 'parsing of option values by cln_plugin (ConfiguredPlugin::option is a contract: it returns the configured value); e-mail options absent'}
+    rep.bounds = {'options': 'all i64 values of the six integer options, both values of the two flags', 'pay_requests': 'retry_for / maxfee / maxdelay / amount symbolic over their full ranges, xpay on and off, 1 part', 'outside': 'parsing of option values by cln_plugin (ConfiguredPlugin::option is a contract: it returns the configured value); e-mail options absent'}
     rep.assumptions = ['lightningd passes integers for integer options', 'ConfiguredPlugin::option returns the configured value (contract)', 'getinfo answers']
     rep.trusted = ['mirsym', 'z3', 'tokio contracts', 'node model (getinfo)']
     h = StartupHarness(c)
@@ -213,10 +213,22 @@ def main(tier, seed, args):
             rep.inconclusive.append('counterexample %s did not reproduce natively (%s): %s' % (v.kind, nat['why'], path))
     rep.obligations += 1
     rep.discharged += 0 if (ex.violations or ex.inconclusive) else 1
+    if not rep.violations:
+        # "runs with exactly those values": what the provider holds is what it puts into every pay request -- retry time,
+        # fee budget, delay budget, for both settings of the xpay flag (the request check of C16, request fields symbolic)
+        from . import c16
+        for xpay in (False, True):
+            h = c16.PayHarness(c, xpay, 0, 1, ('complete', 'failed'))
+            name = 'values applied to pay requests[xpay=%s]' % xpay
+            ex2 = run_explorer(rep, c, h, name, max_states=100000)
+            c16.report(rep, name, ex2, xpay, pid=PID)
     finish(rep, [c], './check C19 --tier ' + tier)
 
 def replay_cex(path):
     cex = json.load(open(path))
+    if cex.get('replay_kind') == 'provider':
+        from . import c16
+        return c16.replay_cex(path, PID)
     nat = native_check(cex)
     print(json.dumps(nat, indent=1))
     if nat['reproduced']:
